@@ -377,3 +377,138 @@ def programs(rng, n):
         g = G(rng.fork("p%d" % i))
         out.append(("gen%04d" % i, g.program(i)))
     return out
+
+
+def layout_programs():
+    """Systematic: every matrix shape (and vec3, and a struct holding a matrix) as a struct member wrapped in 0, 1 and 2
+    array levels, and as a whole global, in storage and (where the sizes allow it) uniform buffers: the layout
+    decorations (Offset, ArrayStride, MatrixStride, ColMajor) must be present at every level."""
+    out = []
+    shapes = [("mat%dx%d<f32>" % (c, r), c * (8 if r == 2 else 16)) for c in (2, 3, 4) for r in (2, 3, 4)]
+    shapes += [("vec3<f32>", 12), ("Inner", 64)]
+    for ty, size in shapes:
+        for depth in (0, 1, 2):
+            wrapped = ty
+            for d in range(depth):
+                wrapped = "array<%s, %d>" % (wrapped, 2 + d)
+            for space in ("storage", "uniform"):
+                if space == "uniform" and size % 16 != 0:
+                    continue
+                acc = "storage, read_write" if space == "storage" else "uniform"
+                idx = "".join("[%d]" % 0 for _ in range(depth))
+                read = {"Inner": "g.m%s.im[1].x", "vec3<f32>": "g.m%s.y"}.get(ty, "g.m%s[1].y") % idx
+                read2 = {"Inner": "h%s.im[1].x", "vec3<f32>": "h%s.y"}.get(ty, "h%s[1].y") % idx
+                src = ("struct Inner { im: mat4x4<f32> }\nstruct S { a: f32, m: %s, z: f32 }\n"
+                       "@group(0) @binding(0) var<%s> g: S;\n@group(0) @binding(1) var<%s> h: %s;\n"
+                       "@group(0) @binding(2) var<storage, read_write> o: array<f32, 4>;\n"
+                       "@compute @workgroup_size(1) fn main() { o[0] = %s + g.z; o[1] = %s; }\n"
+                       % (wrapped, acc, acc, wrapped, read, read2))
+                out.append(("layout_%s_%s_d%d" % (space, ty.replace("<", "").replace(">", ""), depth), src))
+    return out
+
+
+def feature_programs():
+    """One minimal module per feature that needs its own capability / extension / execution mode, each ALONE in its module
+    (a requirement satisfied only as a by-product of another feature in the same module is the classic defect): every
+    derivative builtin, every texture dimensionality x (sample, load, query, gather), storage-texture formats, atomics,
+    subgroup operations, f16, interpolation / sample-rate inputs, special built-in inputs and outputs."""
+    out = []
+    frag = "@fragment fn main(@location(0) v: vec2<f32>) -> @location(0) vec4<f32> { %s }\n"
+    for f in ("dpdx", "dpdy", "fwidth"):
+        for c in ("", "Fine", "Coarse"):
+            out.append(("feat_%s%s" % (f, c), frag % ("return vec4<f32>(%s%s(v.x));" % (f, c))))
+            out.append(("feat_%s%s_vec" % (f, c), frag % ("return vec4<f32>(%s%s(v), 0.0, 1.0);" % (f, c))))
+    tex = [("texture_1d<f32>", "v.x", "1", "i32(v.x)"), ("texture_2d<f32>", "v", "2", "vec2<i32>(v)"),
+           ("texture_2d_array<f32>", "v, 1", "2a", "vec2<i32>(v), 1"), ("texture_3d<f32>", "vec3<f32>(v, 0.5)", "3", "vec3<i32>(vec3<f32>(v, 0.0))"),
+           ("texture_cube<f32>", "vec3<f32>(v, 0.5)", "c", None), ("texture_cube_array<f32>", "vec3<f32>(v, 0.5), 1", "ca", None)]
+    for ty, coord, tag, icoord in tex:
+        hdr = "@group(0) @binding(0) var t: %s;\n@group(0) @binding(1) var s: sampler;\n" % ty
+        out.append(("feat_sample_%s" % tag, hdr + frag % ("return textureSample(t, s, %s);" % coord)))
+        if tag != "1":
+            out.append(("feat_samplelevel_%s" % tag, hdr + frag % ("return textureSampleLevel(t, s, %s, 1.0);" % coord)))
+            out.append(("feat_samplebias_%s" % tag, hdr + frag % ("return textureSampleBias(t, s, %s, 0.5);" % coord)))
+        if tag in ("2", "2a", "c", "ca"):
+            out.append(("feat_gather_%s" % tag, hdr + frag % ("return textureGather(1, t, s, %s);" % coord)))
+        if icoord:
+            out.append(("feat_load_%s" % tag, hdr + frag % ("return textureLoad(t, %s, 0);" % icoord)))
+        out.append(("feat_dims_%s" % tag, hdr + frag % ("let d = textureDimensions(t); return vec4<f32>(f32(textureNumLevels(t)));")))
+        if tag in ("2a", "ca"):
+            out.append(("feat_layers_%s" % tag, hdr + frag % ("return vec4<f32>(f32(textureNumLayers(t)));")))
+    for ty, tag, coord in (("texture_depth_2d", "d2", "v"), ("texture_depth_2d_array", "d2a", "v, 1"), ("texture_depth_cube", "dc", "vec3<f32>(v, 0.5)"),
+                           ("texture_depth_cube_array", "dca", "vec3<f32>(v, 0.5), 1")):
+        hdr = "@group(0) @binding(0) var t: %s;\n@group(0) @binding(1) var s: sampler;\n@group(0) @binding(2) var sc: sampler_comparison;\n" % ty
+        out.append(("feat_sample_%s" % tag, hdr + frag % ("return vec4<f32>(textureSample(t, s, %s));" % coord)))
+        out.append(("feat_samplecmp_%s" % tag, hdr + frag % ("return vec4<f32>(textureSampleCompare(t, sc, %s, 0.5));" % coord)))
+        out.append(("feat_samplecmplevel_%s" % tag, hdr + frag % ("return vec4<f32>(textureSampleCompareLevel(t, sc, %s, 0.5));" % coord)))
+        out.append(("feat_gathercmp_%s" % tag, hdr + frag % ("return textureGatherCompare(t, sc, %s, 0.5);" % coord)))
+    hdr = "@group(0) @binding(0) var t: texture_multisampled_2d<f32>;\n"
+    out.append(("feat_ms_load", hdr + frag % "return textureLoad(t, vec2<i32>(v), 1);"))
+    out.append(("feat_ms_samples", hdr + frag % "return vec4<f32>(f32(textureNumSamples(t)));"))
+    hdr = "@group(0) @binding(0) var t: texture_depth_multisampled_2d;\n"
+    out.append(("feat_dms_load", hdr + frag % "return vec4<f32>(textureLoad(t, vec2<i32>(v), 1));"))
+    for fmt in ("rgba8unorm", "rgba8snorm", "rgba8uint", "rgba8sint", "rgba16uint", "rgba16sint", "rgba16float", "r32uint", "r32sint", "r32float",
+                "rg32uint", "rg32sint", "rg32float", "rgba32uint", "rgba32sint", "rgba32float", "bgra8unorm"):
+        k = "u32" if "uint" in fmt else ("i32" if "sint" in fmt else "f32")
+        for dim, co in (("1d", "1"), ("2d", "vec2<i32>(1, 2)"), ("2d_array", "vec2<i32>(1, 2), 1"), ("3d", "vec3<i32>(1, 2, 3)")):
+            if dim != "2d" and fmt not in ("rgba8unorm", "r32uint", "rg32float", "rgba16float"):
+                continue
+            out.append(("feat_storage_%s_%s_w" % (dim, fmt),
+                        "@group(0) @binding(0) var t: texture_storage_%s<%s, write>;\n@compute @workgroup_size(1) fn main() { textureStore(t, %s, vec4<%s>()); }\n"
+                        % (dim, fmt, co, k)))
+        if fmt in ("r32uint", "r32sint", "r32float", "rgba8unorm", "rgba16float", "rg32float"):
+            out.append(("feat_storage_2d_%s_r" % fmt,
+                        "@group(0) @binding(0) var t: texture_storage_2d<%s, read>;\n@group(0) @binding(1) var<storage, read_write> o: array<%s, 4>;\n"
+                        "@compute @workgroup_size(1) fn main() { o[0] = textureLoad(t, vec2<i32>(1, 2)).x; let d = textureDimensions(t); }\n" % (fmt, k)))
+            out.append(("feat_storage_2d_%s_rw" % fmt,
+                        "@group(0) @binding(0) var t: texture_storage_2d<%s, read_write>;\n"
+                        "@compute @workgroup_size(1) fn main() { textureStore(t, vec2<i32>(0, 0), textureLoad(t, vec2<i32>(1, 2))); }\n" % fmt))
+    cs = "@group(0) @binding(0) var<storage, read_write> o: array<u32, 8>;\n%s@compute @workgroup_size(4) fn main(%s) { %s }\n"
+    out.append(("feat_atomic_storage", cs % ("@group(0) @binding(1) var<storage, read_write> a: atomic<u32>;\n", "", "o[0] = atomicAdd(&a, 1u); atomicStore(&a, 2u); o[1] = atomicLoad(&a);")))
+    out.append(("feat_atomic_cmpxchg", cs % ("@group(0) @binding(1) var<storage, read_write> a: atomic<i32>;\n", "", "let r = atomicCompareExchangeWeak(&a, 1, 2); o[0] = u32(r.old_value); o[1] = select(0u, 1u, r.exchanged);")))
+    out.append(("feat_atomic_workgroup", cs % ("var<workgroup> a: atomic<u32>;\n", "", "o[0] = atomicMax(&a, 1u); workgroupBarrier(); o[1] = atomicLoad(&a);")))
+    out.append(("feat_barriers", cs % ("var<workgroup> w: array<u32, 4>;\n", "@builtin(local_invocation_index) li: u32", "w[li] = li; workgroupBarrier(); storageBarrier(); o[li] = w[3u - li];")))
+    out.append(("feat_wg_uniform_load", cs % ("var<workgroup> w: u32;\n", "@builtin(local_invocation_index) li: u32", "if li == 0u { w = 7u; } let x = workgroupUniformLoad(&w); o[li] = x;")))
+    out.append(("feat_num_workgroups", cs % ("", "@builtin(num_workgroups) n: vec3<u32>, @builtin(workgroup_id) w: vec3<u32>", "o[0] = n.x + w.y;")))
+    for f, arg in (("subgroupAdd", "1u"), ("subgroupMul", "2u"), ("subgroupMin", "li"), ("subgroupMax", "li"), ("subgroupAnd", "li"), ("subgroupOr", "li"),
+                   ("subgroupXor", "li"), ("subgroupExclusiveAdd", "1u"), ("subgroupInclusiveAdd", "1u"), ("subgroupBroadcastFirst", "li"),
+                   ("subgroupBroadcast", "li, 1u"), ("subgroupShuffle", "li, 1u"), ("subgroupShuffleXor", "li, 1u"), ("subgroupShuffleUp", "li, 1u"),
+                   ("subgroupShuffleDown", "li, 1u"), ("quadBroadcast", "li, 1u"), ("quadSwapX", "li"), ("quadSwapY", "li"), ("quadSwapDiagonal", "li")):
+        out.append(("feat_%s" % f, "enable subgroups;\n" + cs % ("", "@builtin(local_invocation_index) li: u32", "o[li] = %s(%s);" % (f, arg))))
+    out.append(("feat_subgroupBallot", "enable subgroups;\n" + cs % ("", "@builtin(local_invocation_index) li: u32", "o[li] = subgroupBallot(li > 1u).x;")))
+    out.append(("feat_subgroupAll", "enable subgroups;\n" + cs % ("", "@builtin(local_invocation_index) li: u32", "o[li] = select(0u, 1u, subgroupAll(li > 1u) || subgroupAny(li > 2u) || subgroupElect());")))
+    out.append(("feat_subgroup_builtins", "enable subgroups;\n" + cs % ("", "@builtin(subgroup_size) ss: u32, @builtin(subgroup_invocation_id) si: u32", "o[0] = ss + si;")))
+    out.append(("feat_subgroupBarrier", "enable subgroups;\n" + cs % ("", "", "subgroupBarrier(); o[0] = 1u;")))
+    out.append(("feat_f16", "enable f16;\n@group(0) @binding(0) var<storage, read_write> o: array<f16, 4>;\n@compute @workgroup_size(1) fn main() { o[0] = o[1] * 2.0h + f16(o[2]); }\n"))
+    out.append(("feat_f16_vec_io", "enable f16;\n@fragment fn main(@location(0) v: vec2<f16>) -> @location(0) vec4<f16> { return vec4<f16>(v, v); }\n"))
+    for f, a in (("pack4x8snorm", "vec4<f32>(0.5)"), ("pack4x8unorm", "vec4<f32>(0.5)"), ("pack2x16snorm", "vec2<f32>(0.5)"), ("pack2x16unorm", "vec2<f32>(0.5)"),
+                 ("pack2x16float", "vec2<f32>(0.5)"), ("pack4xI8", "vec4<i32>(1)"), ("pack4xU8", "vec4<u32>(1u)"), ("pack4xI8Clamp", "vec4<i32>(1)"), ("pack4xU8Clamp", "vec4<u32>(1u)")):
+        out.append(("feat_%s" % f, cs % ("", "", "o[0] = %s(%s * %s);" % (f, a, a.split("(")[0] + "(" + ("o[1]" if "u32" in a else ("i32(o[1])" if "i32" in a else "f32(o[1])")) + ")"))))
+    for f, r in (("unpack4x8snorm", ".x"), ("unpack4x8unorm", ".x"), ("unpack2x16snorm", ".x"), ("unpack2x16unorm", ".x"), ("unpack2x16float", ".x"),
+                 ("unpack4xI8", ".x"), ("unpack4xU8", ".x")):
+        out.append(("feat_%s" % f, cs % ("", "", "o[0] = u32(%s(o[1])%s);" % (f, r))))
+    out.append(("feat_dot4", cs % ("", "", "o[0] = dot4U8Packed(o[1], o[2]) + u32(dot4I8Packed(o[1], o[2]));")))
+    # stage inputs / outputs that need their own capability or execution mode
+    out.append(("feat_sample_index", "@fragment fn main(@builtin(sample_index) si: u32) -> @location(0) vec4<f32> { return vec4<f32>(f32(si)); }\n"))
+    out.append(("feat_sample_mask_in", "@fragment fn main(@builtin(sample_mask) m: u32) -> @location(0) vec4<f32> { return vec4<f32>(f32(m)); }\n"))
+    out.append(("feat_sample_mask_out", "struct O { @location(0) c: vec4<f32>, @builtin(sample_mask) m: u32 }\n@fragment fn main() -> O { return O(vec4<f32>(1.0), 3u); }\n"))
+    out.append(("feat_frag_depth", "@fragment fn main(@builtin(position) p: vec4<f32>) -> @builtin(frag_depth) f32 { return p.z * 0.5; }\n"))
+    out.append(("feat_front_facing", "@fragment fn main(@builtin(front_facing) ff: bool) -> @location(0) vec4<f32> { return vec4<f32>(select(0.0, 1.0, ff)); }\n"))
+    out.append(("feat_primitive_index", "enable primitive_index;\n@fragment fn main(@builtin(primitive_index) pi: u32) -> @location(0) vec4<f32> { return vec4<f32>(f32(pi)); }\n"))
+    out.append(("feat_primitive_index_noenable", "@fragment fn main(@builtin(primitive_index) pi: u32) -> @location(0) vec4<f32> { return vec4<f32>(f32(pi)); }\n"))
+    out.append(("feat_view_index", "@fragment fn main(@builtin(view_index) vi: i32) -> @location(0) vec4<f32> { return vec4<f32>(f32(vi)); }\n"))
+    out.append(("feat_discard", "@fragment fn main(@location(0) v: f32) -> @location(0) vec4<f32> { if v < 0.0 { discard; } return vec4<f32>(v); }\n"))
+    for it in ("flat", "linear", "perspective", "linear, centroid", "linear, sample", "perspective, centroid", "perspective, sample", "flat, first", "flat, either"):
+        out.append(("feat_interp_%s" % it.replace(", ", "_"),
+                    "@fragment fn main(@location(0) @interpolate(%s) v: f32) -> @location(0) vec4<f32> { return vec4<f32>(v); }\n" % it))
+    out.append(("feat_dual_source", "enable dual_source_blending;\nstruct O { @location(0) @blend_src(0) a: vec4<f32>, @location(0) @blend_src(1) b: vec4<f32> }\n"
+                "@fragment fn main() -> O { return O(vec4<f32>(1.0), vec4<f32>(0.5)); }\n"))
+    out.append(("feat_vertex_builtins", "@vertex fn main(@builtin(vertex_index) vi: u32, @builtin(instance_index) ii: u32) -> @builtin(position) vec4<f32> { return vec4<f32>(f32(vi + ii)); }\n"))
+    out.append(("feat_invariant", "struct O { @builtin(position) @invariant p: vec4<f32> }\n@vertex fn main() -> O { return O(vec4<f32>(1.0)); }\n"))
+    out.append(("feat_clip_distances", "enable clip_distances;\nstruct O { @builtin(position) p: vec4<f32>, @builtin(clip_distances) c: array<f32, 2> }\n"
+                "@vertex fn main() -> O { var o: O; o.p = vec4<f32>(1.0); o.c[0] = 1.0; return o; }\n"))
+    out.append(("feat_binding_array", "@group(0) @binding(0) var t: binding_array<texture_2d<f32>, 4>;\n@group(0) @binding(1) var s: sampler;\n"
+                + frag % "return textureSample(t[1], s, v);"))
+    out.append(("feat_external_texture", "@group(0) @binding(0) var t: texture_external;\n" + frag % "return textureLoad(t, vec2<i32>(v));"))
+    out.append(("feat_i64", "@group(0) @binding(0) var<storage, read_write> o: array<i64, 2>;\n@compute @workgroup_size(1) fn main() { o[0] = o[1] + 1li; }\n"))
+    out.append(("feat_f64", "@group(0) @binding(0) var<storage, read_write> o: array<f64, 2>;\n@compute @workgroup_size(1) fn main() { o[0] = o[1] + 1.0lf; }\n"))
+    return out
